@@ -275,6 +275,55 @@ theorem pixel_jitter_equal_convolution_all_shapes (img : Arr ℝ) (m n : ℕ) (h
 
 example : ∃ m n : ℕ, m % 2 = 0 ∧ n % 2 = 0 ∧ 0 < m ∧ m ≠ n := ⟨4, 6, rfl, rfl, by norm_num, by norm_num⟩
 
+/-- **the functions themselves return a non-negative convolution unchanged.** Stated about `pixel`, `jitter`, `smear` as the sources
+compose them — renormalisation and zero-total guard included — not about the un-normalised core: whenever the exact circular
+convolution `c = conv img K` with the function's transfer function is non-negative on the image, the output *is* `c` at every
+sample; pixel and jitter on every shape, smear on odd × odd shapes (`hodd`). Every image is covered, the all-zero one included
+(there `c = 0` and the guard returns the zero frame). Totals: `renormalised_total_preserved`. -/
+theorem blurs_return_nonneg_convolution (img : Arr ℝ) (m n : ℕ) (hm : img.s0 = m) (hn : img.s1 = n) (hm0 : 0 < m) (hn0 : 0 < n)
+    (os scale dist ang ps : ℝ) :
+    ((∀ i j : ℕ, i < m → j < n → 0 ≤ ((conv img (pixelKernel img.s0 img.s1 os)).get i j).re) →
+      ∀ i j : ℕ, i < m → j < n → (pixel ℂ img os).get i j = ((conv img (pixelKernel img.s0 img.s1 os)).get i j).re) ∧
+    ((∀ i j : ℕ, i < m → j < n → 0 ≤ ((conv img (jitterKernel img.s0 img.s1 scale ps os)).get i j).re) →
+      ∀ i j : ℕ, i < m → j < n →
+        (jitter ℂ img scale ps os).get i j = ((conv img (jitterKernel img.s0 img.s1 scale ps os)).get i j).re) ∧
+    (m % 2 = 1 → n % 2 = 1 →
+      (∀ i j : ℕ, i < m → j < n → 0 ≤ ((conv img (smearKernel img.s0 img.s1 dist ang ps os)).get i j).re) →
+      ∀ i j : ℕ, i < m → j < n →
+        (smear ℂ img dist ang ps os).get i j = ((conv img (smearKernel img.s0 img.s1 dist ang ps os)).get i j).re) := by
+  have hdc := kernel_dc_gain_one img.s0 img.s1 (by omega) (by omega) os scale dist ang ps
+  have key : ∀ k : Arr ℝ, EqualsConvolution img k m n → k.get 0 0 = 1 →
+      (∀ i j : ℕ, i < m → j < n → 0 ≤ ((conv img k).get i j).re) →
+      ∀ i j : ℕ, i < m → j < n → (renormZ img (blurCore ℂ img k)).get i j = ((conv img k).get i j).re := by
+    intro k hE hk hnn i j hi hj
+    obtain ⟨hb, ht⟩ := hE.2.2 hnn
+    by_cases h0 : arrSum (blurCore ℂ img k) = 0
+    · rw [renormZ_zero _ _ h0]; exact hb i j hi hj
+    · rw [renormZ_ne _ _ h0]
+      exact (ht hk).2 (by rw [← (ht hk).1]; exact h0) i j hi hj
+  have hpj := pixel_jitter_equal_convolution_all_shapes img m n hm hn hm0 hn0 os scale ps
+  refine ⟨fun hnn i j hi hj => ?_, fun hnn i j hi hj => ?_, fun hmo hno hnn i j hi hj => ?_⟩
+  · rw [pixel_def]; exact (hpj.1.2.2 hnn).1 i j hi hj
+  · rw [jitter_def]; exact key _ hpj.2 hdc.2.1 hnn i j hi hj
+  · rw [smear_def]
+    exact key _ (blurs_equal_convolution_odd img m n hm hn hmo hno os scale dist ang ps).2.2 hdc.2.2 hnn i j hi hj
+
+/-- the hypothesis is satisfiable on an image with signal (1 × 1, where the convolution is the image itself) -/
+example : ∃ img : Arr ℝ, img.s0 = 1 ∧ img.s1 = 1 ∧ 0 < arrSum img ∧
+    ∀ i j : ℕ, i < 1 → j < 1 → 0 ≤ ((conv img (jitterKernel img.s0 img.s1 (0.7 : ℝ) 1 2)).get i j).re := by
+  refine ⟨⟨1, 1, fun _ _ => 1⟩, rfl, rfl, by rw [arrSum_eq]; simp, fun i j hi hj => ?_⟩
+  have hi0 : i = 0 := by omega
+  have hj0 : j = 0 := by omega
+  subst hi0 hj0
+  have hk := (kernel_dc_gain_one 1 1 le_rfl le_rfl (2 : ℝ) 0.7 0 0 1).2.1
+  unfold conv
+  rw [ifft2_get_eq _ 1 1 rfl rfl]
+  have hf : ∀ k l : ℤ, (fft2 (R := ℝ) (toCx (K := ℂ) (⟨1, 1, fun _ _ => 1⟩ : Arr ℝ))).get k l = 1 := by
+    intro k l
+    rw [fft2_get_eq (toCx (K := ℂ) (⟨1, 1, fun _ _ => 1⟩ : Arr ℝ)) 1 1 rfl rfl]
+    simp [fker_eq, E_zero, toCx, CxLike.ofReal]
+  simp [mulKernel, hf, fker_eq, E_zero, hk, CxLike.ofReal]
+
 /-- **convolution theorem: the Fourier form is the spatial circular convolution.** `conv img K = ifft2(fft2(img)·K)` — the object
 the "equals the convolution" theorems speak about — is `Σ_a Σ_b img[a,b]·h[(i−a) mod m, (j−b) mod n]` with the point-spread
 function `h = ifft2(K)`, for every shape and every real transfer function (`np.fft.fft2/ifft2` as the plain DFT pair). -/
